@@ -479,7 +479,7 @@ pub fn check(tier: &str, std_bin: &str) -> i32 {
         cfgs.push(("fine/unbounded".into(), Cfg { w: 2, days: 2, threshold: 0, fine: true, bound: None }));
         cfgs.push(("fine/unbounded".into(), Cfg { w: 3, days: 2, threshold: 0, fine: true, bound: None }));
     }
-    let bounded: Vec<(usize, Vec<usize>)> = if quick { vec![(3, vec![0, 1, 2]), (4, vec![0, 1]), (5, vec![0])] } else { vec![(3, vec![0, 1, 2, 3]), (4, vec![0, 1, 2, 3]), (5, vec![0, 1, 2]), (6, vec![0, 1])] };
+    let bounded: Vec<(usize, Vec<usize>)> = if quick { vec![(3, vec![0, 1, 2]), (4, vec![0, 1, 2]), (5, vec![0, 1])] } else { vec![(3, vec![0, 1, 2, 3]), (4, vec![0, 1, 2, 3]), (5, vec![0, 1, 2]), (6, vec![0, 1])] };
     for (p, bs) in &bounded {
         for b in bs {
             cfgs.push((format!("fine/bound{}", b), Cfg { w: *p, days: *p as i64, threshold: 0, fine: true, bound: Some(*b) }));
